@@ -17,6 +17,60 @@ fn run_requests(t: &mut Tracer, sess: &str, key: &[u8], iv: &[u8], reqs: &[usize
     }
 }
 
+// ---- input construction: (key, IV) pairs for which one addition of the FIRST initialisation round has operands that sum to exactly `target`
+//      (2^31-1, 2^31, 2^31+1: the boundary of the reduction modulo 2^31-1; random pairs: 2^-29).  Meet in the middle over two (key byte, IV byte)
+//      pairs; every candidate is re-checked with the straightforward chain below.  The SPECIFICATION classifies the session (new.add31-boundary)
+//      and judges the keystream; nothing here is an oracle. ----
+const ZD: [u32; 16] = [0x44D7, 0x26BC, 0x626B, 0x135E, 0x5789, 0x35E2, 0x7135, 0x09AF, 0x4D78, 0x2F13, 0x6BC4, 0x1AF1, 0x5E26, 0x3C4D, 0x789A, 0x47AC];
+fn zcell(i: usize, k: u8, iv: u8) -> u32 { ((k as u32) << 23) | (ZD[i] << 8) | iv as u32 }
+fn zrot(a: u32, k: u32) -> u32 { ((a << k) | (a >> (31 - k))) & 0x7fff_ffff }
+fn zadd(a: u32, b: u32) -> u32 { let c = a as u64 + b as u64; ((c & 0x7fff_ffff) + (c >> 31)) as u32 }
+/// operands (partial sum, term) of the six additions of the first initialisation round
+fn first_round_adds(key: &[u8], iv: &[u8]) -> Vec<(u32, u32)> {
+    let s: Vec<u32> = (0..16).map(|i| zcell(i, key[i], iv[i])).collect();
+    let x0 = ((s[15] >> 15) << 16) | (s[14] & 0xffff);
+    let terms = [zrot(s[0], 8), zrot(s[4], 20), zrot(s[10], 21), zrot(s[13], 17), zrot(s[15], 15), x0 >> 1];
+    let mut acc = s[0];
+    let mut out = vec![];
+    for t in terms { out.push((acc, t)); acc = zadd(acc, t); }
+    out
+}
+pub fn craft_add31(rng: &mut Rng, pos: usize, target: u64) -> Option<(Vec<u8>, Vec<u8>)> {
+    // Addition `pos` (1-based) adds the term of cell [0, 4, 10, 13, 15][pos-1] (pos 6: u, moved by iv[14]) to the partial sum.  The partial sum is
+    // additive modulo 2^31-1 in the contribution L = s0 + rot(s0, 8) of cell 0, whose free bits (key and IV byte) cover the constant bits of every
+    // term: tabulate L over (key[0], iv[0]), walk over the term's (key byte, IV byte), look up the L that makes the sum hit the target.
+    const P: u64 = 0x7fff_ffff;
+    if pos < 2 || pos > 6 { return None; }
+    let cells = [0usize, 0, 4, 10, 13, 15];
+    let lval = |k: u8, v: u8| -> u64 { let s0 = zcell(0, k, v); (s0 as u64 + zrot(s0, 8) as u64) % P };
+    let mut lmap: std::collections::HashMap<u64, (u8, u8)> = std::collections::HashMap::new();
+    for k in 0..=255u8 { for v in 0..=255u8 { lmap.insert(lval(k, v), (k, v)); } }
+    for _attempt in 0..4 {
+        let (mut key, mut iv) = (rng.bytes(16), rng.bytes(16));
+        let lcur = lval(key[0], iv[0]);
+        let try_fix = |key: &mut Vec<u8>, iv: &mut Vec<u8>| -> bool {
+            let a = first_round_adds(key, iv)[pos - 1];
+            let rest = (a.0 as u64 % P + P - lcur) % P;                      // contribution of everything but cell 0 to the partial sum
+            let need = ((target % P) + 2 * P - (a.1 as u64 % P) - rest) % P;
+            if let Some((k0, v0)) = lmap.get(&need) {
+                let (ok, ov) = (key[0], iv[0]);
+                key[0] = *k0; iv[0] = *v0;
+                let b = first_round_adds(key, iv)[pos - 1];
+                if b.0 as u64 + b.1 as u64 == target { return true; }
+                key[0] = ok; iv[0] = ov;
+            }
+            false
+        };
+        if pos <= 5 {
+            let mc = cells[pos];
+            for k in 0..=255u8 { for v in 0..=255u8 { key[mc] = k; iv[mc] = v; if try_fix(&mut key, &mut iv) { return Some((key, iv)); } } }
+        } else {
+            for v14 in 0..=255u8 { iv[14] = v14; for k in 0..=255u8 { for v in 0..=255u8 { key[10] = k; iv[10] = v; if try_fix(&mut key, &mut iv) { return Some((key, iv)); } } } }
+        }
+    }
+    None
+}
+
 pub fn drive_stream(t: &mut Tracer, tier: &str, seed: u64, plan: Option<String>) {
     let thorough = tier == "thorough";
     let mut rng = Rng(seed ^ 0x20c);
@@ -35,6 +89,15 @@ pub fn drive_stream(t: &mut Tracer, tier: &str, seed: u64, plan: Option<String>)
             let reqs: Vec<usize> = v["reqs"].as_array().unwrap().iter().map(|x| x.as_u64().unwrap() as usize).collect();
             let (key, iv) = if i % 4 == 0 { structured[(i / 4) % structured.len()].clone() } else { (rng.bytes(16), rng.bytes(16)) };
             run_requests(t, &sess(), &key, &iv, &reqs);
+        }
+    }
+    // (a2) crafted (key, IV): an addition of the first initialisation round sums to exactly 2^31-1 / 2^31 / 2^31+1
+    for pos in 2..=6usize {
+        for target in [0x7fff_ffffu64, 0x8000_0000, 0x8000_0001] {
+            if let Some((key, iv)) = craft_add31(&mut rng, pos, target) {
+                run_requests(t, &sess(), &key, &iv, &[16]);
+                run_requests(t, &sess(), &key, &iv, &[1, 0, 3, 12]);
+            }
         }
     }
     // (b) official vectors and structured keys: two-word requests and word-by-word
